@@ -251,6 +251,19 @@ def run_case(ck, desc):
                 if zp is not None and abs(zh / zp - 1) <= 0.05 and abs(dak.residual(zl_, Tr, pr, True)) <= 1e-8:
                     known = "K1-dak-first-coefficient"
                 ck.violation("hall-yarbrough-agrees-5%", detail, desc, known_key=known)
+        # termination on a denser sample of the common range (a stopping rule below the rounding floor
+        # of the residual never fires at sporadic points: p_r 6 .. 24 at low T_r)
+        rng_ = np.random.default_rng(int(Tr * 1e6) % (2**32))
+        for pr in np.concatenate([rng_.uniform(0.5, 24.0, 60), np.arange(0.5, 24.01, 0.5)]):
+            REACH.reset_loop()
+            try:
+                with np.errstate(all="ignore"):
+                    z_factor_hallyarbrough(float(pr), Tr)
+            except instrument.LoopBudgetExceeded as e:
+                ck.violation("hall-yarbrough-terminates", {"Tr": Tr, "pr": float(pr), "why": str(e)}, desc)
+                break
+            ck.note_max("hall_yarbrough_max_iterations", max(REACH.loop_counts.values(), default=0))
+            ck.count("hall_yarbrough_termination_probes")
     # the same correlation when the caller's scalars are typed differently (Python int, numpy
     # int64; float32 scalars would legitimately carry float32 rounding into T_r and p_r): every event is judged at the value that was actually passed
     for pr in desc["pr"][:4]:
